@@ -123,9 +123,9 @@ CLAIMED = {
         "§6 C12",
     ),
     "C15": (
-        "Lean 4 theorems: log-likelihood shifts by -sum log|a|, responsibilities invariant, statistics transform as N, aF+bN, a^2 S+2abF+b^2 N, ML M-step equivariant (floors transformed, no count floor active), MAP Spec means/variances equivariant and the pinned variance blend refuted (a = 2), linear scores invariant, channel-factor posterior invariant under the transformed ISV/JFA model, every enrolment iterate (y, all x_h, z) invariant, i-vector posterior mean invariant, ISV/JFA training and fixed-covariance i-vector training equivariant, k-means assignments invariant under uniform scale + shift and distances under orthogonal maps; metamorphic original-vs-transformed runs on the implementation",
+        "Lean 4 theorems: log-likelihood shifts by -sum log|a|, responsibilities invariant, statistics transform as N, aF+bN, a^2 S+2abF+b^2 N, ML M-step and whole ML training runs equivariant for every number of iterations (floors transformed; starved components included since repair D25, the pinned update refuted), MAP Spec means/variances equivariant and the pinned variance blend refuted (a = 2), linear scores invariant, channel-factor posterior invariant under the transformed ISV/JFA model, every enrolment iterate (y, all x_h, z) invariant, i-vector posterior mean invariant, ISV/JFA training and i-vector training (fixed covariances; updated covariances under uniform scales with the floor transformed) equivariant, k-means assignments invariant under uniform scale + shift and distances under orthogonal maps; metamorphic original-vs-transformed runs on the implementation",
         "Proof for all per-feature scales a != 0 and shifts b (k-means: all similarities). Tie: the kernels involved are tied to the code by C01-C03, C05-C08, C10, C11; here the log-likelihood and E-step kernels are re-run on transformed inputs (negative and widely different scales) and the metamorphic relations are observed on the implementation for likelihoods, ML/MAP training, linear scoring, ISV/JFA latents-scores-client means, i-vectors and k-means under rotations.",
-        "Real arithmetic. Known finding: MAP variance update not equivariant (D3, KNOWN-FINDING with a corpus witness). ISV / JFA training (all phases, any number of iterations) and i-vector training with fixed covariances are proved equivariant (U, V, D, T rows follow the features); i-vector training with update_sigma is observed on the implementation only (its scalar variance floor is not scale-free).",
+        "Real arithmetic. Known findings: MAP variance update not equivariant (D3), and GMMMachine.fit's relative stopping test on the average log-likelihood is not unit-free, so with an active convergence_threshold the number of iterations depends on the units (D24; C15_gmm_stop_rule_depends_on_units) — both KNOWN-FINDING with a corpus witness; the equivariance theorems are about a fixed number of iterations. ISV / JFA training (all phases, any number of iterations) and i-vector training with fixed covariances are proved equivariant (U, V, D, T rows follow the features); i-vector training with update_sigma is proved equivariant for one M-step under per-feature scales while the floor is inactive, and for whole training runs under any uniform scale and shift with the scalar floor transformed like a variance (clamping or not); per-feature scales with a clamping floor are outside the property (the floor is one scalar).",
         "§6 C15",
     ),
 }
